@@ -249,8 +249,14 @@ func taintMut(sel func(np *v1.NodePool) *[]corev1.Taint, field string) []mutator
 			*sel(np) = append(append([]corev1.Taint{}, ts[:i]...), ts[i+1:]...)
 			return true
 		}},
-		{field + ":change-key", expDiffer, with(func(r *kit.Rand, t *corev1.Taint, fresh func() string) bool { t.Key = "changed.example.com/" + fresh(); return true })},
-		{field + ":change-value", expDiffer, with(func(r *kit.Rand, t *corev1.Taint, fresh func() string) bool { t.Value = "changed-" + fresh(); return true })},
+		{field + ":change-key", expDiffer, with(func(r *kit.Rand, t *corev1.Taint, fresh func() string) bool {
+			t.Key = "changed.example.com/" + fresh()
+			return true
+		})},
+		{field + ":change-value", expDiffer, with(func(r *kit.Rand, t *corev1.Taint, fresh func() string) bool {
+			t.Value = "changed-" + fresh()
+			return true
+		})},
 		{field + ":change-effect", expDiffer, with(func(r *kit.Rand, t *corev1.Taint, _ func() string) bool {
 			for _, e := range effects {
 				if e != t.Effect {
